@@ -102,6 +102,46 @@ def cmd_confirm(name, run_tests=True):
     return res
 
 
+def cmd_detect_wt(name, thorough=False, seeds=(0,), jobs=None):
+    """Same as detect, but the patch is applied to a scratch worktree and the check is pointed at it with VERIF_REPO
+    (used while other checks are running against /repo itself)."""
+    d = os.path.join(SEEDED, name)
+    meta = json.load(open(os.path.join(d, 'meta.json')))
+    prop = meta.get('property') or name.split('-')[0]
+    tree = '/tmp/vfdet_%s' % name.replace('-', '_')
+    shutil.rmtree(tree, ignore_errors=True)
+    sh(['git', '-C', REPO, 'worktree', 'prune'])
+    sh(['git', '-C', REPO, 'worktree', 'add', '-q', '--detach', tree, 'HEAD'])
+    out = {'name': name, 'property': prop, 'runs': [], 'mode': 'VERIF_REPO worktree'}
+    try:
+        a = sh(['git', '-C', tree, 'apply', os.path.join(d, 'patch.diff')])
+        if a.returncode != 0:
+            out['error'] = 'patch does not apply: ' + a.stdout.decode()[-200:]
+        else:
+            env = dict(os.environ, VERIF_REPO=tree)
+            if jobs:
+                env['VERIF_JOBS'] = str(jobs)
+            for tier in ['quick'] + (['thorough'] if thorough else []):
+                for seed in seeds:
+                    p = sh([os.path.join(HERE, 'check'), prop, '--tier', tier, '--seed', str(seed)], cwd=HERE, env=env)
+                    txt = p.stdout.decode(errors='replace')
+                    keys = [l.strip()[:300] for l in txt.splitlines() if l.strip().startswith('key=') or l.strip().startswith('unkeyed')][:6]
+                    out['runs'].append({'tier': tier, 'seed': seed, 'exit': p.returncode, 'first_lines': keys,
+                                        'inconclusive': [l[:200] for l in txt.splitlines() if 'INCONCLUSIVE' in l][:3]})
+                    if p.returncode == 1:
+                        break
+                if out['runs'] and out['runs'][-1]['exit'] == 1:
+                    break
+            out['caught'] = any(r['exit'] == 1 for r in out['runs'])
+            out['caught_by'] = next(('%s seed %d' % (r['tier'], r['seed']) for r in out['runs'] if r['exit'] == 1), None)
+    finally:
+        sh(['git', '-C', REPO, 'worktree', 'remove', '--force', tree])
+        shutil.rmtree(tree, ignore_errors=True)
+    json.dump(out, open(os.path.join(d, 'result.json'), 'w'), indent=1)
+    print(name, 'caught' if out.get('caught') else 'MISSED', out.get('caught_by'), '|', ' || '.join(out['runs'][-1]['first_lines'][:2]) if out.get('runs') else out.get('error'))
+    return out
+
+
 def cmd_detect(name, thorough=False, seeds=(0,)):
     d = os.path.join(SEEDED, name)
     meta = json.load(open(os.path.join(d, 'meta.json')))
@@ -146,6 +186,10 @@ def main(argv):
             if n == '--no-tests':
                 continue
             cmd_confirm(n, run_tests='--no-tests' not in argv)
+    elif argv[1] == 'detect-wt':
+        names = [a for a in argv[2:] if not a.startswith('--')]
+        for n in names:
+            cmd_detect_wt(n, thorough='--thorough' in argv, seeds=(0, 1) if '--seeds2' in argv else (0,), jobs=6)
     elif argv[1] == 'detect':
         names = [a for a in argv[2:] if not a.startswith('--')]
         for n in names:
